@@ -1437,6 +1437,11 @@ def substitute_new_temporaries(fn, known_locals: set[str]) -> int:
                             (isinstance(e, ast.UnaryOp) and isinstance(e.operand, ast.Constant)) or \
                             (isinstance(e, (ast.BinOp, ast.UnaryOp)) and all(isinstance(x, (ast.BinOp, ast.UnaryOp, ast.Constant, ast.operator, ast.unaryop))
                                                                              for x in ast.walk(e))) or \
+                            (isinstance(e, ast.Compare) and isinstance(e.left, (ast.Name, ast.Constant)) and all(
+                                isinstance(c, ast.Constant) or (isinstance(c, ast.Tuple) and all(isinstance(x, ast.Constant) for x in c.elts)) for c in e.comparators)
+                             and all(isinstance(o, (ast.Eq, ast.NotEq, ast.Is, ast.IsNot, ast.In, ast.NotIn)) for o in e.ops)) or \
+                            (isinstance(e, ast.UnaryOp) and isinstance(e.op, ast.Not) and _plain(e.operand)) or \
+                            (isinstance(e, ast.BoolOp) and all(_plain(v) for v in e.values)) or \
                             (isinstance(e, ast.Call) and isinstance(e.func, ast.Name) and e.func.id in _STABLE_BUILTINS and not e.keywords
                              and all(_plain(a) for a in e.args))  # id(x) / type(x): fixed by WHICH object x is, not by its state
                     heap = not (_plain(st.value) or _stable_attr_alias(st.value))
